@@ -18,7 +18,8 @@ TREE = "T"          # first token of a case that is run through the radix-tree s
 class C05(LineCheck):
     pid = "C05"
     coq_targets = ["theories/Timer/HeapModel.vo", "theories/Timer/HeapSpec.vo", "theories/Timer/HeapProofs.vo",
-                   "theories/Timer/RadixModel.vo", "theories/Timer/RadixSpec.vo", "theories/Timer/RadixProofs.vo"]
+                   "theories/Timer/RadixModel.vo", "theories/Timer/RadixSpec.vo", "theories/Timer/RadixProofs.vo",
+                   "theories/Gen/LeafTimer.vo", "theories/Timer/RadixLink.vo", "theories/Timer/RadixHazard.vo"]
     corr_name = ("correspondence timer_drv(iv_timer.c) = extracted HeapModel (rc, num_timers, rat_depth, numobjs, slot array walked "
                  "through the real radix tree, every back index, fire order) and radix_drv(iv_timer.c) = extracted RadixModel "
                  "(the same plus nodes reachable from timer_root, ratnode callocs, ratnode frees after every op; iv_timer_deinit)")
@@ -27,13 +28,18 @@ class C05(LineCheck):
         "slot pointers as addresses, first_leaf/timer_root union) is proved to refine it (C05_radix_*); the node counts reachable = "
         "allocated - freed + 1 are compared with the implementation and checked by the monitor, not proved",
         "radix_drv.c counts calloc(1, sizeof(struct iv_timer_ratnode)) / free of such blocks via -Wl,--wrap; calloc failure (iv_fatal) is not modelled",
+        "gen/c2gallina.py (clang JSON AST -> Gen/Leaf.v and Gen/LeafTimer.v, rerun on every check): the condition of the growth test of iv_timer_get_node is "
+        "translated with undefined shifts explicit (None) and proved equal to the model's grow_test (C05_radix_growth_test_is_the_code); "
+        "+ - * inside that condition are not range-checked by the translator",
         "expiries are Z nanoseconds; timespec_gt on (sec, nsec) with 0 <= nsec < 1e9 is lexicographic = comparison of sec*1e9+nsec",
         "timer_drv.c sets st->time directly and calls iv_run_timers (internal entry point), handlers interpret scripts",
     ]
     assumptions = [
-        "num_timers < 2^28 (C int arithmetic is modelled in Z; at rat_depth 4, i.e. from 2^28 timers on, iv_timer_get_node shifts a 32-bit int by 35: "
-        "C05_radix_shift_defined / C05_radix_shift_refuted); register/unregister are only called when allowed by iv_timer_registered "
-        "(the library aborts otherwise)",
+        "every timer id of a history is < 2^30, hence num_timers < 2^30 (POP_BOUND): C int arithmetic is part of RadixModel (undefined shift = EShift, "
+        "signed overflow = EOverflow) and no error value is reachable in that range; beyond it push_down's `2 * index` overflows an int for a heap "
+        "index >= 2^30 (C05_radix_int_range_refuted), and ++num_timers at INT_MAX; the growth test itself is defined for every depth and every int "
+        "index (guard of commit 3da677a, tied to the source by the leaf translator); register/unregister are only called when allowed by "
+        "iv_timer_registered (the library aborts otherwise)",
     ]
     rule = ("cases = seeded histories of guarded register/unregister/run-timers with handler scripts; victims biased to root/last/interior/"
             "equal expiries; ramps crossing the 128 and 16384 capacity boundaries in both directions; tree-stage cases (prefix T): unregister of the "
@@ -41,6 +47,16 @@ class C05(LineCheck):
             "(up, down without crossing, up again, down across), iv_timer_deinit (Z) on empty / populated trees of depth 0, 1, 2; every case "
             "of the first stage is also run through the tree stage; non-trivial = the case contains an "
             "unregister of an interior slot (1 < index < num), or a run that fires >= 2 timers, or a depth change; distinct = distinct case text")
+
+    def pre_proof(self, ctx):
+        """way (a) of the tie: regenerate Gen/LeafTimer.v (and Gen/Leaf.v) from the current C source (growth test of iv_timer_get_node)"""
+        import importlib.util
+        spec = importlib.util.spec_from_file_location("c2gallina", os.path.join(vlib.VERIF, "gen", "c2gallina.py"))
+        mod = importlib.util.module_from_spec(spec)
+        spec.loader.exec_module(mod)
+        with vlib.Lock(os.path.join(vlib.COQ, ".lock")):
+            err = mod.main()
+        return ("leaf translator failed (tie broken): " + err) if err else None
 
     def build(self, ctx):
         d = os.path.join(ctx.work, "b")
